@@ -54,7 +54,7 @@ def _exc(kind: str):
 
 
 EXC_KINDS = ["value", "group", "conn", "closed", "timeout", "mixed", "conngroup"]
-TCP_POSITIONS = ["conn-before", "conn-after", "handle-before-yield", "handle-after-request", "handle-in-except", "disconnect", "reset-after-accept", "reraise-parse-error", "yield-invalid-timeout"]
+TCP_POSITIONS = ["parse-error-after-valid", "conn-before", "conn-after", "handle-before-yield", "handle-after-request", "handle-in-except", "disconnect", "reset-after-accept", "reraise-parse-error", "yield-invalid-timeout"]
 UDP_POSITIONS = ["handle-before-yield", "handle-after-request", "handle-in-except", "reraise-parse-error", "yield-invalid-timeout"]
 
 
@@ -144,7 +144,7 @@ class UdpHandler(AsyncDatagramRequestHandler):
             raise self.make_exc()
 
 
-def tcp(position: str, K: int, prefix: list = ()):
+def tcp(position: str, K: int, prefix: list = (), path: str = "copy"):
     def scenario(S):
         kind = S.pick(EXC_KINDS, "exc")
         with loop_context() as loop:
@@ -154,14 +154,18 @@ def tcp(position: str, K: int, prefix: list = ()):
             logger.disabled = True
             logging.getLogger("easynetwork").disabled = True
             H = TcpHandler(be, log, position, lambda: _exc(kind))
-            server = AsyncTCPNetworkServer("h", 0, StreamProtocol(L.RawSep(b"\n", limit=8)), H, be, logger=logger)
+            from easynetwork.protocol import BufferedStreamProtocol
+
+            proto = (BufferedStreamProtocol if path == "buf" else StreamProtocol)(L.RawSep(b"\n", limit=8))
+            server = AsyncTCPNetworkServer("h", 0, proto, H, be, logger=logger)
             main = loop.create_task(server.serve_forever())
             for _ in range(8):
                 loop.step()
                 if server.is_serving():
                     break
             bad_first = position in ("handle-in-except", "reraise-parse-error")
-            f_stream = (b"!\n" if bad_first else b"") + b"a\nb\n"
+            bad_second = position == "parse-error-after-valid"  # a malformed request right behind a valid one (same chunk possible)
+            f_stream = (b"!\n" if bad_first else b"") + (b"a\n!\nb\n" if bad_second else b"a\nb\n")
             h_stream = b"x\ny\n"
             tf = MemStreamTransport(be, f_stream, available=0, loop=loop)
             th = MemStreamTransport(be, h_stream, available=0, loop=loop)
@@ -179,7 +183,7 @@ def tcp(position: str, K: int, prefix: list = ()):
                 if c == 0:
                     loop.step()
                 elif c == 1:
-                    tf.feed(2)
+                    tf.feed(S.int(2, 4, f"fk{i}"))
                 else:
                     th.feed(2)
                 if th.rpos < len(h_stream) and any(ev[0] == "disconnected" and ev[1] == "F" for ev in log):
@@ -286,6 +290,9 @@ def shards(tier: str):
     for pos in TCP_POSITIONS:
         for pre in range(3):
             out.append({"name": f"tcp/{pos}/K{K}/pre{pre}", "scenario": "props.c17:tcp", "params": dict(position=pos, K=K, prefix=[pre]), "budget": B, "cost": 7 * 3**K, "per_path_timeout": 30})
+    for pos in ("parse-error-after-valid", "handle-in-except", "handle-after-request", "reset-after-accept"):
+        for pre in range(3):
+            out.append({"name": f"tcp-buf/{pos}/K{K}/pre{pre}", "scenario": "props.c17:tcp", "params": dict(position=pos, K=K, prefix=[pre], path="buf"), "budget": B, "cost": 7 * 3**K, "per_path_timeout": 30})
     for pos in UDP_POSITIONS:
         for pre in range(3):
             out.append({"name": f"udp/{pos}/K{K}/pre{pre}", "scenario": "props.c17:udp", "params": dict(position=pos, K=K, prefix=[pre]), "budget": B, "cost": 7 * 3**K, "per_path_timeout": 30})
